@@ -4,6 +4,8 @@ The oracle restates the property on the ledger of the instrumented fake devices 
 whenever a blocking call (RE(...), resume, abort, stop, halt) returns with the engine idle,
   * every device got, since the previous idle moment, at least as many unstage() calls as successful
     stage() calls, and no device's last successful stage() is left without a later unstage() call,
+  * retry clause (implementation-side only, next to the clause mirrored in Coq): an unstage() that RAISED while the plan's own
+    'unstage' message was processed leaves the device staged - a later attempt is required before the engine goes idle,
   * every device's last set() call is followed by a stop() call.
   * every subscription a `monitor` message installed on a device (subscribe) has been removed (clear_sub):
     an oracle-only case family (monitors are not in the engine model; those cases are not sent to Coq).
